@@ -26,7 +26,7 @@ Definition fstep_is_end (k : key) (x : fstep * bool) : bool :=
   match fst x with FEndPatch k' => key_eqb k k' | _ => false end.
 Definition fstep_tag (f : fstep) : nat :=
   match f with FCython => 0 | FPathRestore => 1 | FEndPatch _ => 2 | FMetaRemove => 3 | FPurgeModules => 4
-  | FUncapture => 5 | FPathRemove => 6 end.
+  | FUncapture => 5 | FPathRemove => 6 | FMetaPop => 7 end.
 
 (* every restore is inside the finally; each begin_patch has its end_patch there; the hook, the
    path entry and the modules are removed there; the three lists and the directly assigned
@@ -466,19 +466,43 @@ Proof.
   destruct (opt_value_eqb (get k_chdir s) r); repeat split; auto. discriminate.
 Qed.
 
-Lemma run_op_meta : forall e o s, meta (run_op e o s) = meta s.
+(* scripts that register no finder of their own *)
+Definition no_meta_ins (os : list op) : Prop := forall f h, ~ In (OMetaIns f h) os.
+Lemma run_op_meta : forall e o s, (forall f h, o <> OMetaIns f h) -> meta (run_op e o s) = meta s.
 Proof.
-  intros e o s; destruct o as [k [|n|k']|k|d|n kd|n|d|k c]; cbn; auto.
+  intros e o s H; destruct o as [k [|n|k']|k|d|n kd|n|d|k c|fr h]; cbn; auto.
   - destruct (get k' s); reflexivity.
   - apply do_chdir_facts.
   - apply mutate_fields.
+  - exfalso; apply (H fr h); reflexivity.
 Qed.
-Lemma run_ops_meta : forall e os s, meta (run_ops e os s) = meta s.
-Proof. intros e os; unfold run_ops. induction os as [|o r IH]; intros s; cbn; auto. rewrite IH. apply run_op_meta. Qed.
+Lemma run_ops_meta : forall e os s, no_meta_ins os -> meta (run_ops e os s) = meta s.
+Proof.
+  intros e os; unfold run_ops. induction os as [|o r IH]; intros s H; cbn; auto.
+  rewrite IH.
+  - apply run_op_meta. intros f h ->. apply (H f h). left; reflexivity.
+  - intros f h X. apply (H f h). right; exact X.
+Qed.
+(* a finder that is registered stays registered while the script runs: scripts only add *)
+Lemma mem_n_app_l : forall h a b, mem_n h a = true -> mem_n h (a ++ b) = true.
+Proof. induction a as [|y r IH]; cbn; intros b H; [discriminate|]. apply orb_true_iff in H. destruct H as [H|H]; [rewrite H; reflexivity|rewrite IH by exact H; apply orb_true_r]. Qed.
+Lemma run_op_meta_mem : forall e o s h, mem_n h (meta s) = true -> mem_n h (meta (run_op e o s)) = true.
+Proof.
+  intros e o s h H; destruct o as [k [|n|k']|k|d|n kd|n|d|k c|fr h']; cbn; auto.
+  - destruct (get k' s); exact H.
+  - rewrite (proj1 (proj2 (proj2 (do_chdir_facts _ _ _ _)))). exact H.
+  - rewrite (proj1 (proj2 (proj2 (mutate_fields k c s)))). exact H.
+  - destruct fr; cbn; [rewrite H; apply orb_true_r|apply mem_n_app_l; exact H].
+Qed.
+Lemma run_ops_meta_mem : forall e os s h, mem_n h (meta s) = true -> mem_n h (meta (run_ops e os s)) = true.
+Proof.
+  intros e os; unfold run_ops. induction os as [|o r IH]; intros s h H; cbn; auto.
+  apply IH. apply run_op_meta_mem; exact H.
+Qed.
 
 Lemma run_op_novalue : forall r e o s, host_value r -> novalue r s -> novalue r (run_op e o s).
 Proof.
-  intros r e o s Hr H; destruct o as [k [|n|k']|k|d|n kd|n|d|k c]; cbn.
+  intros r e o s Hr H; destruct o as [k [|n|k']|k|d|n kd|n|d|k c|fr h]; cbn.
   - apply novalue_set; auto. apply (host_value_fresh r Hr).
   - apply novalue_set; auto. apply (host_value_fresh r Hr).
   - destruct (get k' s) as [v|] eqn:G; auto. apply novalue_set; auto. rewrite <- G. apply H.
@@ -488,6 +512,7 @@ Proof.
   - eapply novalue_same_attrs; [|exact H]. reflexivity.
   - eapply novalue_same_attrs; [|exact H]. reflexivity.
   - eapply novalue_same_attrs; [|exact H]. intros x. apply mutate_get.
+  - eapply novalue_same_attrs; [|exact H]. reflexivity.
 Qed.
 Lemma run_ops_novalue : forall r e os s, host_value r -> novalue r s -> novalue r (run_ops e os s).
 Proof.
@@ -497,7 +522,7 @@ Qed.
 
 Lemma run_op_cwd : forall e o s, novalue (e_real_chdir e) s -> cwd (run_op e o s) = cwd s.
 Proof.
-  intros e o s H; destruct o as [k [|n|k']|k|d|n kd|n|d|k c]; cbn; auto.
+  intros e o s H; destruct o as [k [|n|k']|k|d|n kd|n|d|k c|fr h]; cbn; auto.
   - destruct (get k' s); reflexivity.
   - apply do_chdir_facts. apply H.
   - apply mutate_fields.
@@ -513,7 +538,7 @@ Qed.
 Definition no_path_ins (os : list op) : Prop := forall d, ~ In (OPathIns d) os.
 Lemma run_op_path : forall e o s, (forall d, o <> OPathIns d) -> path (run_op e o s) = path s.
 Proof.
-  intros e o s H; destruct o as [k [|n|k']|k|d|n kd|n|d|k c]; cbn; auto.
+  intros e o s H; destruct o as [k [|n|k']|k|d|n kd|n|d|k c|fr h]; cbn; auto.
   - destruct (get k' s); reflexivity.
   - apply do_chdir_facts.
   - exfalso; apply (H d); reflexivity.
